@@ -1022,16 +1022,17 @@ theorem C12_jitter_from_arrival_refuted : ¬ C12_jitter_from_arrival_full := by
 
 /-! ## Tie: the source of `_handlers/multicast_outgoing_queue.py`, translated statement by statement on every run
 
-`Zc.GenFn.Queue` is regenerated from the *bodies* of `MulticastOutgoingQueue.async_add`, `_remove_answers_from_queue` and
-`async_ready` (`tools/gen_fn.py`; `random.randint`, `loop.time()`, `current_time_millis()` are parameters, `loop.call_at` and
+`Zc.GenFn.Queue` is regenerated from the *bodies* of `MulticastOutgoingQueue.async_add`, `async_remove_answers`,
+`_remove_answers_from_queue` and `async_ready` (`tools/gen_fn.py`; `random.randint`, `loop.time()`, `current_time_millis()` are parameters, `loop.call_at` and
 `zc.async_send` returned effects); `GenFacts/FnQueue.lean` proves that the `Queue` model above computes what those bodies
-compute.  So the window theorems speak about a queue whose every step is the translated source, and an edit of one of the three
+compute.  So the window theorems speak about a queue whose every step is the translated source, and an edit of one of the four
 bodies breaks a named lemma of `FnQueue` at stage P. -/
 section Tie
 open Zc.Py Zc.GenFn.Queue Zc.GenFacts.FnQueue
 
 /-- **The model queue is the translated queue, along every history of calls.**  For any sequence of `async_add` (with any draw
-and loop time), `async_ready` (clock reading = loop time, as in the model) and `_remove_answers_from_queue` calls on a fresh queue,
+and loop time), `async_ready` (clock reading = loop time, as in the model), `_remove_answers_from_queue` and `async_remove_answers`
+(the D5 repair: `Queue.removeRecords`) calls on a fresh queue,
 handed well-formed dicts: the translated code never raises (`queue[0]`, `queue[-1]`, `popleft` always find an element; the `while`
 bound suffices), its deque is the model's group list, each `call_at` it performs is the model's new timer and each transmission the
 model's batch, in order. -/
